@@ -138,6 +138,20 @@ def check_rand(recipe) -> list[Fail]:
     if kind in ("Molecule", "Structure"):
         cls = getattr(ml, kind)
         obj = chem.build_molecule(r, cls)
+        if recipe.get("foreign") and obj.n_atoms:
+            # history of the object: it was itself READ from a mol2 file of another program's flavour (other molecule / charge type in
+            # the header, e.g. NO_CHARGES with a zero charge column), and got its partial charges assigned afterwards
+            mt, ct = [("SMALL", "NO_CHARGES"), ("PROTEIN", "GASTEIGER"), ("BIOPOLYMER", "NO_CHARGES"), ("SMALL", "MMFF94_CHARGES")][recipe["foreign"] % 4]
+            t0 = obj.dumps_mol2().replace("\nSMALL\nUSER_CHARGES\n", f"\n{mt}\n{ct}\n", 1)
+            try:
+                o2 = cls.loads_mol2(t0)
+            except Exception:
+                o2 = None        # (whether such a header is accepted is not the point here)
+            if o2 is not None and o2.n_atoms == obj.n_atoms:
+                if hasattr(obj, "atomic_charges"):
+                    o2.atomic_charges = np.asarray(obj.atomic_charges)
+                o2.name = obj.name
+                obj = o2
         roundtrip(obj, cls, kind, fails, recipe.get("entry", "loads"))
         if not fails and recipe.get("again") and obj.n_atoms:
             # the same object, edited in place, written again: the text must follow the current state
@@ -269,7 +283,7 @@ def strat_rand(tier):
     ensr = chem.ensemble_recipe(max_atoms=8, max_bonds=10, max_conf=4, attribs=False, mol2_safe=True).filter(lambda r: len(r["confs"]) >= 1).map(_mol2ify)
     return st.one_of(
         st.fixed_dictionaries({"kind": st.just("Substructure"), "mol": molr, "sub": st.lists(st.integers(0, 60), min_size=1, max_size=8)}),
-        st.fixed_dictionaries({"kind": st.sampled_from(["Molecule", "Molecule", "Structure"]), "mol": molr, "entry": st.sampled_from(["loads", "loads", "loads_all", "load_stream"]), "again": st.booleans()}),
+        st.fixed_dictionaries({"kind": st.sampled_from(["Molecule", "Molecule", "Structure"]), "mol": molr, "entry": st.sampled_from(["loads", "loads", "loads_all", "load_stream"]), "again": st.booleans(), "foreign": st.sampled_from([0, 0, 1, 2, 3, 4])}),
         st.fixed_dictionaries({"kind": st.just("ConformerEnsemble"), "mol": ensr}),
     )
 
